@@ -354,7 +354,16 @@ func (ty *ObjectType) Merge(other ExprType) ExprType {
 		for n, l := range ty.Props {
 			props[n] = l
 		}
-		for n, r := range other.Props {
+		// Merge the properties in order of their names. Merging types is not associative (e.g.
+		// (bool | string) | number is string but (bool | number) | string is any) so the element type
+		// must not depend on random iteration order of the map.
+		names := make([]string, 0, len(other.Props))
+		for n := range other.Props {
+			names = append(names, n)
+		}
+		sort.Strings(names)
+		for _, n := range names {
+			r := other.Props[n]
 			if l, ok := props[n]; ok {
 				props[n] = l.Merge(r)
 			} else {
